@@ -1429,6 +1429,18 @@ def cast_use_cases():
     return out
 
 
+def nonfinite_param_cases():
+    """gate parameters whose folded value is not a finite double (C03 only: such a program has no meaning to compare)"""
+    out = []
+    pre = "qubit[4] q;\nbit[2] c;\n"
+    # parameter expressions that overflow the doubles they are folded in (inf): a literal the language cannot write
+    for e in ("1e308 * 10", "-1e308 * 10", "1e200 * 1e200"):   # (no nan: the oracles compare values, and nan differs from itself)
+        out.append(H3 + pre + "rx(%s) q[0];\n" % e)
+        out.append(H3 + pre + "gate g(t) a { rz(t * 1e308) a; }\ng(%s) q[1];\nh q[0];\n" % e)
+        out.append(H3 + pre + "c[0] = measure q[0];\nif (c[0] == 1) { ry(%s) q[1]; }\n" % e)
+    return out
+
+
 def folded_value_cases():
     """values that reach the output through a numpy scalar, a boolean or an initialiser: bit registers declared with a
     computed initial value (variable, expression, subroutine result, loop variable), boolean register indices, custom
